@@ -11,7 +11,7 @@ from xmc.pathmodel import Path, align, norm_ws
 ID = "C06"
 LEVEL = "model_checking"
 TECHNIQUE = "explicit-state small-scope exploration: every string of bounded length over an adversarial fragment alphabet x every text-bearing channel x reference placement x language mode x container, executed on the implementation; recovered text compared character for character and document skeleton compared with the inert-text run"
-CLAIM = ("Every concatenation up to the bound of 29 adversarial fragments (XML metacharacters, entity/CDATA/comment look-alikes, quotes, "
+CLAIM = ("Every concatenation up to the bound of 32 adversarial fragments (XML metacharacters, entity/CDATA/comment look-alikes, quotes, "
          "braces, astral and RTL Unicode, edge/double spaces) is placed in each of 15 text-bearing channels, with and without embedded "
          "references, in single- and two-language forms; the real converter runs and a strict parser must recover the text from the "
          "channel's place, and the element/attribute skeleton must equal that of the same form holding the inert text 'x'.")
@@ -24,23 +24,23 @@ ASSUMPTIONS = [
     "C0/C1 control characters, newline and tab are outside the statement's alphabet and not explored",
 ]
 BOUND = {
-    "quick": "strings of <=2 fragments (870) x 15 channels x applicable reference placements x {one, two languages} on dict input; single fragments additionally through md and xlsx",
-    "thorough": "strings of <=3 fragments (25 259) x 15 channels x reference placements x language modes on dict input; strings of <=2 through md and xlsx",
+    "quick": "strings of <=2 fragments (1056) x 16 channels x applicable reference placements x {one, two languages} on dict input; single fragments additionally through md and xlsx",
+    "thorough": "strings of <=3 fragments (33 824) x 16 channels x reference placements x language modes on dict input; strings of <=2 through md and xlsx",
 }
 # as-built additions to the bound (kept next to BOUND so that the evidence reports them)
 BOUND = {k: v + "; plus: " + 'three function look-alike fragments (pulldata(..), a bare instance( and instance(x)); a question with a guidance hint and media emitted before the cell under test; the same text in a second cell (other row / other language) and a reference-bearing neighbour cell emitted just before the cell under test' for k, v in BOUND.items()}
 
 FRAGS = ["<", ">", "&", '"', "'", "]]>", "&amp;", "&#60;", "&lt;", "&quot;", "&nbsp;", "<!--", "-->", "<![CDATA[",
          '<output value="x"/>', "</label>", "{", "}", "$", "a", "é", "\U0001F600", "שלום", "a  b", " ", "-",
-         "pulldata('pf', 'a', 'b', 'c')", "instance(", "instance(x) "]  # (instance('x')/.. in a label is an output by design, like ${x}; a message that is literally jr:itext('id') is passed through as a reference)
+         "pulldata('pf', 'a', 'b', 'c')", "instance(", "instance(x) ", "%", "% s", "%(foo)s"]  # (instance('x')/.. in a label is an output by design, like ${x}; a message that is literally jr:itext('id') is passed through as a reference)
 SIGNIFICANT = set("<>&\"']")
 CHANNELS = ["label", "hint", "guidance_hint", "constraint_message", "required_message", "glabel", "clabel",
-            "cextra", "default", "form_title", "version", "appearance", "attrval", "instval", "bindval"]
-OUTPUT_CH = {"label", "hint", "guidance_hint", "constraint_message", "required_message", "glabel", "clabel"}
+            "cextra", "default", "form_title", "version", "appearance", "attrval", "instval", "bindval", "looplabel"]
+OUTPUT_CH = {"label", "hint", "guidance_hint", "constraint_message", "required_message", "glabel", "clabel", "looplabel"}
 SUBST_CH = {"instval", "bindval"}
 LANG_CH = {"label", "hint", "guidance_hint", "constraint_message", "required_message", "glabel", "clabel"}
 SURVEY_CH = {"label", "hint", "guidance_hint", "constraint_message", "required_message", "glabel", "default",
-             "appearance", "instval", "bindval"}
+             "appearance", "instval", "bindval", "looplabel"}
 
 
 def strings(n):
@@ -151,6 +151,9 @@ def build(ch, text, lang, twin=False, neigh=False, guide=False):
             chs[1].pop("label")
             chs[1]["label::en"] = "Y"
             chs[1]["label::fr"] = "Yf"
+    elif ch == "looplabel":
+        # a question inside a legacy loop: its text is copied per choice, literally (only %(name)s / %(label)s are placeholders)
+        rows += [{"type": "begin loop over c", "name": "lp", "label": "LP"}, {"type": "text", "name": "lq", "label": text}, {"type": "end loop"}]
     elif ch == "cextra":
         chs[0]["extra"] = text
     elif ch == "default":
@@ -213,6 +216,9 @@ def locate(obs, ch, lang, px="/data/g/q", gpath="/data/g", citem=0, pick_lang="e
     if ch == "label":
         c = ctrls.get(px)
         return via(c.find(O.X + "label") if c is not None else None, px + ":label")
+    if ch == "looplabel":
+        c = ctrls.get("/data/lp/y/lq")
+        return via(c.find(O.X + "label") if c is not None else None, "/data/lp/y/lq:label")
     if ch == "glabel":
         c = ctrls.get(gpath)
         return via(c.find(O.X + "label") if c is not None else None, gpath + ":label")
